@@ -101,6 +101,30 @@ pub fn run(_tier: &str) -> String {
     one::<()>("()", &mut acc);
     one::<str>("str", &mut acc);
     one::<[u8]>("[u8]", &mut acc);
+    // "the same handle" does not depend on owning or borrowing the address: owned, borrowed and decoded handles to one address are equal
+    for a in addrs() {
+        let addr = Addr::unchecked(a.clone());
+        let owned: Remote<()> = Remote::new(addr.clone());
+        let borrowed: Remote<()> = Remote::borrowed(&addr);
+        let decoded: Remote<'static, ()> = from_json(to_json_string(&borrowed).unwrap().as_bytes()).unwrap();
+        acc.n += 1;
+        if !(owned == borrowed && borrowed == owned && decoded == borrowed && borrowed == decoded && decoded == owned) {
+            acc.viol.push(json!({"what": "owned / borrowed / decoded handles to one address compare unequal", "type": "()", "addr": a}));
+        }
+        let other: Remote<()> = Remote::new(Addr::unchecked(format!("{}x", a)));
+        if other == owned || other == borrowed {
+            acc.viol.push(json!({"what": "handles to different addresses compare equal", "type": "()", "addr": a}));
+        }
+    }
+    // the handle type a contract names through its generated accessor can borrow an address that lives only for a while
+    {
+        use sylvia::types::ContractApi;
+        let local = Addr::unchecked("short-lived");
+        let via_alias = <Tg as ContractApi>::Remote::borrowed(&local);
+        if to_json_string(&via_alias).unwrap() != "{\"addr\":\"short-lived\"}" {
+            acc.viol.push(json!({"what": "handle named through ContractApi::Remote encodes differently", "type": "Tg", "addr": "short-lived"}));
+        }
+    }
     // several handles with different parameters inside one schema must share one definition named `Remote`
     #[derive(schemars::JsonSchema)]
     #[allow(dead_code)]
